@@ -811,3 +811,24 @@ func init() {
 			Old: "b, _ := AppendUnquote(nil, src[:n])", New: "b := UnquoteMayCopy(src[:n], valFlags.IsCanonical())", Rule: "VERB-1"},
 	)
 }
+
+func init() {
+	addMutants(
+		Mutant{ID: "nspair1-decoder-pop-under-option", Props: []string{"C20", "C08"}, File: "jsontext/decode.go", Func: "decoderState.ReadToken",
+			Old: "\t\td.Namespaces.pop() // regardless of AllowDuplicateNames, which may differ when the object is closed\n", New: "\t\tif !d.Flags.Get(jsonflags.AllowDuplicateNames) {\n\t\t\td.Namespaces.pop()\n\t\t}\n", Rule: "NSPAIR-1"},
+	)
+}
+
+func init() {
+	addMutants(
+		Mutant{ID: "pos4-readvalue-whitespace-error-after-token", Props: []string{"C05", "C16"}, File: "jsontext/decode.go", Func: "decoderState.ReadValue",
+			Old: "\t\t\t\treturn nil, wrapSyntacticError(d, err, pos, 0)\n", New: "\t\t\t\treturn nil, wrapSyntacticError(d, err, pos, +1)\n", Rule: "POS-4"},
+	)
+}
+
+func init() {
+	addMutants(
+		Mutant{ID: "opt9-bytesbuffer-encoder-drops-options", Props: []string{"C19", "C07"}, File: "jsontext/pools.go", Func: "getStreamingEncoder",
+			Old: "e.s.reset(nil, w, opts...)", New: "e.s.reset(nil, w)", Rule: "OPT-9"},
+	)
+}
